@@ -53,3 +53,10 @@ func NewVerifNetlinkClient(sock VerifSocket, pid uint32, readBuf []byte, resp io
 		verif:      verifNetlinkState{sock: sock},
 	}
 }
+
+// VerifSetSequence sets the sequence number the client used last, so that a
+// simulation can start close to the uint32 wrap-around instead of sending
+// 2^32 messages first. It only exists in builds with the "verif" tag.
+func VerifSetSequence(c *NetlinkClient, seq uint32) {
+	c.seq = seq
+}
